@@ -17,6 +17,10 @@ pub fn explore(opts: &Opts) -> Explored {
         (vec![1, 9, 9], vec![3, 1, 4, 4], 2, 2),
         (vec![2, 2, 6, 8], vec![4, 2, 2, 5], 3, 1),
         (vec![4, 5, 5], vec![1, 4, 1, 1], 1, 3),
+        (vec![2, 5, 5], vec![65, 2, 2, 2], 1, 1),
+        (vec![2, 2, 4, 4], vec![70, 2, 3, 3], 1, 1),
+        (vec![1, 12, 13], vec![2, 1, 3, 3], 1, 1),
+        (vec![5, 6, 6], vec![3, 5, 5, 5], 1, 1),
     ] {
         space.push(ConvCfg { image: img, filters: fil, sr, sc });
     }
